@@ -249,3 +249,90 @@ pub mod compressor {
         }
     }
 }
+
+/// Block pool of the block page resource, with a settable worker ordinal.
+pub mod blockpool {
+    pub use crate::policy::immix::block::Block;
+    pub use crate::util::heap::blockpageresource::BlockPool;
+    pub use crate::util::linear_scan::Region;
+
+    /// `BlockQueue::CAPACITY`
+    pub const QUEUE_CAPACITY: usize = 256;
+
+    pub fn set_current_worker_ordinal(ordinal: usize) {
+        crate::scheduler::verif_set_current_worker_ordinal(ordinal)
+    }
+}
+
+/// Mark / log / pin transition helpers.
+pub mod transitions {
+    pub use crate::util::metadata::mark_bit::MarkState;
+    use crate::util::ObjectReference;
+    use crate::vm::{ObjectModel, VMBinding};
+    use std::sync::atomic::Ordering;
+
+    /// The load-then-compare_exchange loop of `ImmixSpace::attempt_mark`.
+    pub fn immix_attempt_mark<VM: VMBinding>(object: ObjectReference, mark_state: u8) -> bool {
+        loop {
+            let old_value = VM::VMObjectModel::LOCAL_MARK_BIT_SPEC.load_atomic::<VM, u8>(
+                object,
+                None,
+                Ordering::SeqCst,
+            );
+            if old_value == mark_state {
+                return false;
+            }
+            if VM::VMObjectModel::LOCAL_MARK_BIT_SPEC
+                .compare_exchange_metadata::<VM, u8>(
+                    object,
+                    old_value,
+                    mark_state,
+                    None,
+                    Ordering::SeqCst,
+                    Ordering::SeqCst,
+                )
+                .is_ok()
+            {
+                break;
+            }
+        }
+        true
+    }
+
+    /// The loop of `ObjectBarrier::log_object` on the global log bit.
+    pub fn barrier_log_object<VM: VMBinding>(object: ObjectReference) -> bool {
+        loop {
+            let old_value = VM::VMObjectModel::GLOBAL_LOG_BIT_SPEC.load_atomic::<VM, u8>(
+                object,
+                None,
+                Ordering::SeqCst,
+            );
+            if old_value == 0 {
+                return false;
+            }
+            if VM::VMObjectModel::GLOBAL_LOG_BIT_SPEC
+                .compare_exchange_metadata::<VM, u8>(
+                    object,
+                    1,
+                    0,
+                    None,
+                    Ordering::SeqCst,
+                    Ordering::SeqCst,
+                )
+                .is_ok()
+            {
+                return true;
+            }
+        }
+    }
+
+    pub fn pin_object<VM: VMBinding>(object: ObjectReference) -> bool {
+        VM::VMObjectModel::LOCAL_PINNING_BIT_SPEC.pin_object::<VM>(object)
+    }
+    pub fn unpin_object<VM: VMBinding>(object: ObjectReference) -> bool {
+        VM::VMObjectModel::LOCAL_PINNING_BIT_SPEC.unpin_object::<VM>(object)
+    }
+    pub fn is_pinned<VM: VMBinding>(object: ObjectReference) -> bool {
+        VM::VMObjectModel::LOCAL_PINNING_BIT_SPEC.is_object_pinned::<VM>(object)
+    }
+}
